@@ -419,6 +419,11 @@ def execute(scn, ctx):
         labs = all_labels(spec)
         if any(l not in spec["pos_groups"] or l not in spec["neg_groups"] for l in labs):
             probe("group_without_class")
+        seen_lab = {}
+        for sc_, lb in list(zip(spec["pos"], spec["pos_groups"])) + list(zip(spec["neg"], spec["neg_groups"])):
+            seen_lab.setdefault(sc_, set()).add(lb)
+        if any(len(v) > 1 for v in seen_lab.values()):
+            probe("ties_across_groups")
         audit(o, models[-1], viol, {"phase": "construction"}, "after construction", full=False)
 
     held = []  # results handed out earlier (group Scores, matrices, samples): later calls must not change them
